@@ -1311,6 +1311,9 @@ func checkC19(c *Check) {
 	c19CloseClosesSocket(c, "R11")
 	c19StampIsOwnEnd(c, "R12")
 	c19NilMapGuard(c, "R13", poolRel)
+	c.Rule("R14", "the queue ends each downstream delivery exactly once (C01.R1): remoteDelivery.Close hands its connections to the pool – a second Abort returns the same connection twice and two deliveries share one SMTP session", 2)
+	importRules(c, "C01", c01Deliver, map[string]bool{"R1": true}, "R14")
+	c19ConfigNotRewritten(c, "R15")
 }
 
 // R8: the pool never waits on a bucket. A bucket channel is bounded (the idle-count limit, possibly 0); a send that
